@@ -19,3 +19,253 @@ Theorem commands_in_order :
   forall mp ss, filter is_cmd_or_label (flat_map (render_stmt mp) ss) = flat_map stmt_instr ss.
 Proof. exact render_stmts_filter. Qed.
 Print Assumptions commands_in_order.
+
+(* ---------- the parser's argument collection (CmdArgs.v) ---------- *)
+(* Source grammar of an argument list: pieces (plain tokens, parentheses, strings, typed strings, format(...), moves(...))
+   grouped by commas; `render_group` = the pieces of a group, constants substituted token by token, joined by single spaces;
+   `line_of` = the printed argument text. For every argument list of that grammar the command parser consumes exactly its
+   tokens and returns the command with exactly those arguments, in order; a block of such commands is parsed into exactly those
+   commands in order (nothing dropped, duplicated, merged or reordered); after hoisting, the final line is the name followed by
+   the source tokens with inline texts / moves() replaced by their labels. *)
+
+From Pory Require Import Parser Format Consume CmdArgs.
+Theorem command_without_parentheses :
+  forall (switches : list (text * text)) (env_errors : bool) (parse_format : toks -> res (token * text * text * toks))
+    (consts : list (text * text)) (f : nat) (script : text) (ts : toks),
+  peekis LPAREN ts = false ->
+  command_stmt switches env_errors parse_format consts f script ts =
+  Ok ({| cname := tlit (cur ts); cargs := []; ctok := cur ts; Ast.cid := Datatypes.length ts |}, imp0, ts).
+Proof. exact CmdArgs.command_without_parentheses. Qed.
+Print Assumptions command_without_parentheses.
+
+Theorem command_with_empty_parentheses :
+  forall (switches : list (text * text)) (env_errors : bool) (parse_format : toks -> res (token * text * text * toks))
+    (consts : list (text * text)) (f : nat) (script : text) (name lp rp : token) (rest : list token),
+  ttype lp = LPAREN ->
+  ttype rp = RPAREN ->
+  0 < f ->
+  exists c : cmd,
+    command_stmt switches env_errors parse_format consts f script (name :: lp :: rp :: rest) = Ok (c, imp0, rp :: rest) /\
+    cname c = tlit name /\ cargs c = [].
+Proof. exact CmdArgs.command_with_empty_parentheses. Qed.
+Print Assumptions command_with_empty_parentheses.
+
+Theorem command_with_arguments :
+  forall (switches : list (text * text)) (env_errors : bool) (parse_format : toks -> res (token * text * text * toks))
+    (consts : list (text * text)) (f : nat) (script : text) (name lp : token) (a : arglist) (rp : token) (rest : list token),
+  ttype lp = LPAREN ->
+  ttype rp = RPAREN ->
+  wf_args switches env_errors parse_format a ->
+  balanced (flat a) ->
+  Datatypes.length (arg_tokens a) < f ->
+  let ts := name :: lp :: arg_tokens a ++ rp :: rest in
+  command_stmt switches env_errors parse_format consts f script ts =
+  Ok
+    ({| cname := tlit name; cargs := map (render_group consts) (strip_last_empty (groups_of a)); ctok := name; Ast.cid := Datatypes.length ts |},
+     {|
+       idT := groups_texts script (Datatypes.length ts) 0 (groups_of a); idM := groups_movs script name (Datatypes.length ts) 0 (groups_of a)
+     |}, rp :: rest).
+Proof. exact CmdArgs.command_with_arguments. Qed.
+Print Assumptions command_with_arguments.
+
+Theorem command_with_nonempty_arguments :
+  forall (switches : list (text * text)) (env_errors : bool) (parse_format : toks -> res (token * text * text * toks))
+    (consts : list (text * text)) (f : nat) (script : text) (name lp : token) (a : arglist) (rp : token) (rest : list token),
+  ttype lp = LPAREN ->
+  ttype rp = RPAREN ->
+  wf_args switches env_errors parse_format a ->
+  balanced (flat a) ->
+  Forall (fun g : list piece => g <> []) (groups_of a) ->
+  Datatypes.length (arg_tokens a) < f ->
+  exists (c : cmd) (imp : impdata),
+    command_stmt switches env_errors parse_format consts f script (name :: lp :: arg_tokens a ++ rp :: rest) = Ok (c, imp, rp :: rest) /\
+    cname c = tlit name /\ cargs c = map (render_group consts) (groups_of a).
+Proof. exact CmdArgs.command_with_nonempty_arguments. Qed.
+Print Assumptions command_with_nonempty_arguments.
+
+Theorem command_line :
+  forall (switches : list (text * text)) (env_errors : bool) (parse_format : toks -> res (token * text * text * toks))
+    (consts : list (text * text)) (f : nat) (script : text) (name lp : token) (a : arglist) (rp : token) (rest : list token),
+  ttype lp = LPAREN ->
+  ttype rp = RPAREN ->
+  wf_args switches env_errors parse_format a ->
+  balanced (flat a) ->
+  Forall (fun g : list piece => g <> []) (groups_of a) ->
+  Datatypes.length (arg_tokens a) < f ->
+  exists (c : cmd) (imp : impdata),
+    command_stmt switches env_errors parse_format consts f script (name :: lp :: arg_tokens a ++ rp :: rest) = Ok (c, imp, rp :: rest) /\
+    render_cmd c = tab ++ tlit name ++ t " " ++ line_of consts (flat a) ++ nl.
+Proof. exact CmdArgs.command_line. Qed.
+Print Assumptions command_line.
+
+Theorem command_statement_without_parentheses :
+  forall (autovars : list (text * autovar)) (switches : list (text * text)) (env_errors : bool)
+    (parse_format : toks -> res (token * text * text * toks)) (consts : list (text * text)) (f : nat) (script : text) 
+    (bs cs : list nat) (ts : toks),
+  ttype (cur ts) = IDENT ->
+  peekis LPAREN ts = false ->
+  peekis COLON ts = false ->
+  parse_stmt autovars switches env_errors parse_format consts (S f) script bs cs ts =
+  Ok ([SCmd {| cname := tlit (cur ts); cargs := []; ctok := cur ts; Ast.cid := Datatypes.length ts |}], imp0, ts).
+Proof. exact CmdArgs.command_statement_without_parentheses. Qed.
+Print Assumptions command_statement_without_parentheses.
+
+Theorem command_statement_with_arguments :
+  forall (autovars : list (text * autovar)) (switches : list (text * text)) (env_errors : bool)
+    (parse_format : toks -> res (token * text * text * toks)) (consts : list (text * text)) (f : nat) (script : text) 
+    (bs cs : list nat) (name lp : token) (a : arglist) (rp y : token) (K : list token),
+  ttype name = IDENT ->
+  ttype lp = LPAREN ->
+  ttype rp = RPAREN ->
+  wf_args switches env_errors parse_format a ->
+  balanced (flat a) ->
+  ttype y <> COLON ->
+  Datatypes.length (arg_tokens a) < f ->
+  let ts := name :: lp :: arg_tokens a ++ rp :: y :: K in
+  parse_stmt autovars switches env_errors parse_format consts (S f) script bs cs ts =
+  Ok
+    ([SCmd
+        {|
+          cname := tlit name; cargs := map (render_group consts) (strip_last_empty (groups_of a)); ctok := name; Ast.cid := Datatypes.length ts
+        |}],
+     {|
+       idT := groups_texts script (Datatypes.length ts) 0 (groups_of a); idM := groups_movs script name (Datatypes.length ts) 0 (groups_of a)
+     |}, rp :: y :: K).
+Proof. exact CmdArgs.command_statement_with_arguments. Qed.
+Print Assumptions command_statement_with_arguments.
+
+Theorem straight_line_commands :
+  forall (autovars : list (text * autovar)) (switches : list (text * text)) (env_errors : bool)
+    (parse_format : toks -> res (token * text * text * toks)) (consts : list (text * text)) (l : list cmdsrc),
+  Forall (wf_cmdsrc switches env_errors parse_format) l ->
+  forall (F : nat) (script : text) (bs cs : list nat) (start : token) (K : list token) (y : token) (K' : list token) 
+    (acc : list stmt) (imp : impdata),
+  K = y :: K' ->
+  ttype y <> COLON ->
+  ttype y <> LPAREN ->
+  Datatypes.length (flat_map cmd_tokens l) + 2 < F ->
+  parse_block autovars switches env_errors parse_format consts F script bs cs start (flat_map cmd_tokens l ++ K) acc imp =
+  parse_block autovars switches env_errors parse_format consts (F - Datatypes.length l) script bs cs start K (acc ++ block_cmds consts l K)
+    (block_imp script l K imp).
+Proof. exact CmdArgs.straight_line_commands. Qed.
+Print Assumptions straight_line_commands.
+
+Theorem block_of_commands :
+  forall (autovars : list (text * autovar)) (switches : list (text * text)) (env_errors : bool)
+    (parse_format : toks -> res (token * text * text * toks)) (consts : list (text * text)) (l : list cmdsrc),
+  Forall (wf_cmdsrc switches env_errors parse_format) l ->
+  forall (F : nat) (script : text) (bs cs : list nat) (start rb : token) (rest : list token),
+  ttype rb = RBRACE ->
+  Datatypes.length (flat_map cmd_tokens l) + 2 < F ->
+  parse_block autovars switches env_errors parse_format consts F script bs cs start (flat_map cmd_tokens l ++ rb :: rest) [] imp0 =
+  Ok (block_cmds consts l (rb :: rest), block_imp script l (rb :: rest) imp0, rb :: rest).
+Proof. exact CmdArgs.block_of_commands. Qed.
+Print Assumptions block_of_commands.
+
+Theorem command_inline_data_in_range :
+  forall (switches : list (text * text)) (env_errors : bool) (parse_format : toks -> res (token * text * text * toks))
+    (consts : list (text * text)) (f : nat) (script : text) (ts : toks) (c : cmd) (imp : impdata) (ts' : toks),
+  command_stmt switches env_errors parse_format consts f script ts = Ok (c, imp, ts') ->
+  cname c = tlit (cur ts) /\
+  ctok c = cur ts /\
+  Ast.cid c = Datatypes.length ts /\
+  Forall (fun it : imptext => itCid it = Ast.cid c /\ itArg it < Datatypes.length (cargs c)) (idT imp) /\
+  Forall (fun im : impmov => imCid im = Ast.cid c /\ imArg im < Datatypes.length (cargs c)) (idM imp).
+Proof. exact CmdArgs.command_inline_data_in_range. Qed.
+Print Assumptions command_inline_data_in_range.
+
+Theorem patching_keeps_command :
+  forall (switches : list (text * text)) (env_errors : bool) (parse_format : toks -> res (token * text * text * toks))
+    (consts : list (text * text)) (f : nat) (script : text) (ts : toks) (c : cmd) (imp : impdata) (ts' : toks),
+  command_stmt switches env_errors parse_format consts f script ts = Ok (c, imp, ts') ->
+  forall (impB impA : impdata) (h h' : hst) (ps : list patch),
+  (forall it : imptext, In it (idT impB ++ idT impA) -> itCid it <> Ast.cid c) ->
+  (forall im : impmov, In im (idM impB ++ idM impA) -> imCid im <> Ast.cid c) ->
+  add_implicit (impadd impB (impadd imp impA)) h = (h', ps) ->
+  exists args' : list text,
+    pcmd ps c = {| cname := cname c; cargs := args'; ctok := ctok c; Ast.cid := Ast.cid c |} /\
+    Datatypes.length args' = Datatypes.length (cargs c).
+Proof. exact CmdArgs.patching_keeps_command. Qed.
+Print Assumptions patching_keeps_command.
+
+Theorem inline_arguments_become_labels :
+  forall (switches : list (text * text)) (env_errors : bool) (parse_format : toks -> res (token * text * text * toks))
+    (consts : list (text * text)) (f : nat) (script : text) (name lp : token) (a : arglist) (rp : token) (rest : list token),
+  ttype lp = LPAREN ->
+  ttype rp = RPAREN ->
+  wf_args switches env_errors parse_format a ->
+  balanced (flat a) ->
+  Forall simple_group (groups_of a) ->
+  Datatypes.length (arg_tokens a) < f ->
+  forall (c : cmd) (imp : impdata) (ts' : toks),
+  command_stmt switches env_errors parse_format consts f script (name :: lp :: arg_tokens a ++ rp :: rest) = Ok (c, imp, ts') ->
+  forall (impB impA : impdata) (h h' : hst) (ps : list patch),
+  (forall it : imptext, In it (idT impB ++ idT impA) -> itCid it <> Ast.cid c) ->
+  (forall im : impmov, In im (idM impB ++ idM impA) -> imCid im <> Ast.cid c) ->
+  add_implicit (impadd impB (impadd imp impA)) h = (h', ps) ->
+  exists args' : list text,
+    pcmd ps c = {| cname := tlit name; cargs := args'; ctok := name; Ast.cid := Ast.cid c |} /\
+    Forall2 (arg_of consts h') (strip_last_empty (groups_of a)) args'.
+Proof. exact CmdArgs.inline_arguments_become_labels. Qed.
+Print Assumptions inline_arguments_become_labels.
+
+Theorem plain_command_final_line :
+  forall (switches : list (text * text)) (env_errors : bool) (parse_format : toks -> res (token * text * text * toks))
+    (consts : list (text * text)) (f : nat) (script : text) (name lp : token) (a : arglist) (rp : token) (rest : list token),
+  ttype lp = LPAREN ->
+  ttype rp = RPAREN ->
+  wf_args switches env_errors parse_format a ->
+  balanced (flat a) ->
+  Forall (fun g : list piece => g <> [] /\ pure g) (groups_of a) ->
+  Datatypes.length (arg_tokens a) < f ->
+  forall (c : cmd) (imp : impdata) (ts' : toks),
+  command_stmt switches env_errors parse_format consts f script (name :: lp :: arg_tokens a ++ rp :: rest) = Ok (c, imp, ts') ->
+  forall (impB impA : impdata) (h h' : hst) (ps : list patch),
+  (forall it : imptext, In it (idT impB ++ idT impA) -> itCid it <> Ast.cid c) ->
+  (forall im : impmov, In im (idM impB ++ idM impA) -> imCid im <> Ast.cid c) ->
+  add_implicit (impadd impB (impadd imp impA)) h = (h', ps) ->
+  render_cmd (pcmd ps c) = tab ++ tlit name ++ t " " ++ line_of consts (flat a) ++ nl.
+Proof. exact CmdArgs.plain_command_final_line. Qed.
+Print Assumptions plain_command_final_line.
+
+Theorem stretch_hoisted :
+  forall (switches : list (text * text)) (env_errors : bool) (parse_format : toks -> res (token * text * text * toks))
+    (consts : list (text * text)) (script : text) (l : list cmdsrc) (K : list token),
+  Forall (wf_cmdsrc switches env_errors parse_format) l ->
+  Forall simple_cmdsrc l ->
+  forall (impB impA : impdata) (h h' : hst) (ps : list patch),
+  (forall it : imptext, In it (idT impB) -> Datatypes.length (flat_map cmd_tokens l ++ K) < itCid it) ->
+  (forall im : impmov, In im (idM impB) -> Datatypes.length (flat_map cmd_tokens l ++ K) < imCid im) ->
+  (forall it : imptext, In it (idT impA) -> itCid it <= Datatypes.length K) ->
+  (forall im : impmov, In im (idM impA) -> imCid im <= Datatypes.length K) ->
+  add_implicit (impadd (block_imp script l K impB) impA) h = (h', ps) ->
+  Forall2 (final_cmd consts h') l (map (pstmt ps) (block_cmds consts l K)).
+Proof. exact CmdArgs.stretch_hoisted. Qed.
+Print Assumptions stretch_hoisted.
+
+Theorem block_of_commands_hoisted :
+  forall (autovars : list (text * autovar)) (switches : list (text * text)) (env_errors : bool)
+    (parse_format : toks -> res (token * text * text * toks)) (consts : list (text * text)) (l : list cmdsrc),
+  Forall (wf_cmdsrc switches env_errors parse_format) l ->
+  Forall simple_cmdsrc l ->
+  forall (F : nat) (script : text) (bs cs : list nat) (start rb : token) (rest : list token) (b : list stmt) (imp : impdata) (ts' : toks),
+  ttype rb = RBRACE ->
+  Datatypes.length (flat_map cmd_tokens l) + 2 < F ->
+  parse_block autovars switches env_errors parse_format consts F script bs cs start (flat_map cmd_tokens l ++ rb :: rest) [] imp0 =
+  Ok (b, imp, ts') ->
+  ts' = rb :: rest /\
+  (forall (h h' : hst) (ps : list patch), add_implicit imp h = (h', ps) -> Forall2 (final_cmd consts h') l (map (pstmt ps) b)).
+Proof. exact CmdArgs.block_of_commands_hoisted. Qed.
+Print Assumptions block_of_commands_hoisted.
+
+Theorem plain_moves_accepted :
+  forall (switches : list (text * text)) (env_errors : bool) (steps : list mstep) (mvtok lp clo : token),
+  Forall wf_mstep steps ->
+  ttype lp = LPAREN ->
+  ttype clo = RPAREN ->
+  let lt := mvtok :: lp :: flat_map step_toks steps ++ [clo] in
+  forall (f : nat) (R : list token),
+  Datatypes.length lt <= f -> R <> [] -> moves_operator switches env_errors f (lt ++ R) = Ok (flat_map step_out steps, clo :: R).
+Proof. exact CmdArgs.plain_moves_accepted. Qed.
+Print Assumptions plain_moves_accepted.
+
